@@ -538,7 +538,7 @@ def enabled (c : Ctl) : In → Bool
   | _ => true
 
 def stepW (w : W) : In → W
-  | .run => w.handle false .nil
+  | .run => if w.c.wsClosed then w else w.handle false .nil   -- Run() does nothing on a connection the peer already closed
   | .msgData ok =>
     if !ok then w.emit .dropData
     else if w.c.reader then w.emit .deliver else w.emit .buffer
@@ -562,6 +562,7 @@ inductive Need | none | allow | all
 
 /-- which provider queries can happen while the input is processed -/
 def envNeed : In → Need
+  | .run => .all                        -- Run() after the read pump already delivered the peer's init continues into the hello phase
   | .msgPlain (.init true) => .all
   | .msgPlain (.hello (.pending _ .t)) => .allow
   | .timeout => .allow
